@@ -266,7 +266,25 @@ static RunPlan gen_scrubplan(uint64_t seed, int tier)
 	// silent errors and files changed since the sync
 	int nsil = (int)rng.range(0, 2);
 	for (int i = 0; i < nsil; ++i) p.ops.push_back(Json::obj().set("k", "silent").set("d", (int64_t)rng.below(p.cfg.disks.size())).set("f", (int64_t)rng.below(32)).set("at", rng.next() >> 8));
-	if (rng.chance(1, 3)) for (auto& o : gen_mutations(rng, p.cfg, (int)rng.range(1, 3))) p.ops.push_back(o);
+	if (rng.chance(1, 2)) {
+		for (auto& o : gen_mutations(rng, p.cfg, (int)rng.range(1, 3))) p.ops.push_back(o);
+		if (rng.chance(1, 2)) {
+			// a deletion makes the point: the recorded state then has freed positions over parity that still contains the old data
+			p.ops.push_back(Json::obj().set("k", "delete").set("d", (int64_t)rng.below(p.cfg.disks.size())).set("f", (int64_t)rng.below(32)));
+			if (rng.chance(1, 2)) p.ops.push_back(Json::obj().set("k", "delete").set("d", (int64_t)rng.below(p.cfg.disks.size())).set("f", (int64_t)rng.below(32)));
+		}
+		if (rng.chance(1, 2)) {
+			// the changes are recorded by a sync that stops early (-B, or interrupted): pending and freed blocks over stale parity
+			CmdSpec s;
+			s.cmd = "sync";
+			s.opts = { "-E", "-Z" };
+			if (rng.chance(1, 2)) { s.opts.push_back("-B"); s.opts.push_back(strf("%d", (int)rng.range(1, 3))); }
+			else { s.sig_at_io = (unsigned)rng.range(1, 12); s.sig_no = 2; }
+			Json so = op_cmd(gen_sched(rng, s));
+			if (nsil) so.set("no_parity_oracle", 1); // the data was damaged on purpose just before
+			p.ops.push_back(so);
+		}
+	}
 	clock(rng.range(0, 30));
 	int scrubs = (int)rng.range(1, 3);
 	for (int i = 0; i < scrubs; ++i) {
